@@ -34,6 +34,8 @@ func runC14(c *Ctx) {
 	c.Rule("R14d", "no directory-mutating call (WriteFile, WriteSumFile, WriteCheckpoint, CopyFiles, os.WriteFile/Remove/Rename) is reachable from Executor.Replay through sql/migrate code, except CopyFiles on a MemDir allocated in the same function", 1)
 	c.Rule("R14e", "a deferred closure that reports the restore error assigns it to a named result of the enclosing function (otherwise the error is lost)", 4)
 
+	c.Rule("R14g", "sqlite restore: inside the closure returned by Snapshot every nil return is preceded by the loop that executes the clean-up statements (no shortcut that decides 'nothing to clean' from a partial view of the database)", 1)
+	checkRestoreAllPaths(c)
 	c.Rule("R14f", "sqlite Snapshot: every object kind the restore closure deletes from sqlite_master (type IN (…)) is consulted by the cleanliness test (a Schema collection read before the closure is returned); index and trigger are implied by their table/view", 2)
 	checkSnapshotKinds(c)
 
@@ -537,4 +539,44 @@ func checkSnapshotKinds(c *Ctx) {
 		}
 		c.Check("R14f", "sqlite.Snapshot|restore deletes "+k, fi.Decl.Pos(), checked[need], "the restore closure deletes objects of type %q but the cleanliness test never looks at them: a dev database holding only such objects is accepted as clean and then wiped", k)
 	}
+}
+
+func checkRestoreAllPaths(c *Ctx) {
+	fi := c.Func("R14g", pSqlite, "Driver", "Snapshot")
+	if fi == nil {
+		return
+	}
+	info := fi.Info()
+	var fl *ast.FuncLit
+	ast.Inspect(fi.Decl.Body, func(m ast.Node) bool {
+		if r, ok := m.(*ast.ReturnStmt); ok && len(r.Results) == 2 {
+			if l, ok := r.Results[0].(*ast.FuncLit); ok {
+				fl = l
+			}
+		}
+		return true
+	})
+	if fl == nil {
+		c.Unresolved("R14g", "sqlite Snapshot: returned restore closure")
+		return
+	}
+	var rx ast.Expr
+	ast.Inspect(fl.Body, func(m ast.Node) bool {
+		if rs, ok := m.(*ast.RangeStmt); ok && nodeHasCall(info, rs.Body, dbExec) != nil {
+			rx = rs.X
+		}
+		return true
+	})
+	if rx == nil {
+		c.Unresolved("R14g", "sqlite restore closure: loop executing the clean-up statements")
+		return
+	}
+	f := newFlow(info, fl.Body)
+	isLoop := func(n ast.Node) bool { return n == ast.Node(rx) }
+	nilRet := func(n ast.Node) bool {
+		r, ok := n.(*ast.ReturnStmt)
+		return ok && len(r.Results) == 1 && isNilIdent(info, r.Results[0])
+	}
+	n, found := f.reach([]point{f.entry()}, isLoop, nilRet, true)
+	c.Check("R14g", "sqlite.Snapshot|restore executes its statements before reporting success", nodePos(n, fl.Pos()), !found, "the restore closure can return nil at %s without executing the clean-up statements: objects the shortcut does not look at (views, triggers) are left in the dev database", c.nodeAtOrEnd(n))
 }
